@@ -158,6 +158,17 @@ def gen_fault_cases(chk, quick):
     return cases
 
 
+def long_wait_case():
+    """SEARCH-ON-BREAK scenario (seed C11-3): about 1200 step-seconds of waiting for a process slot in ONE run — 120 independent
+    steps of 250 ms and one step that depends on all of them, pool size 1.  A handler that publishes a state per poll reaches
+    the capacity of the never-read notifier channel (100000) after ~58 s and the run never ends; the intact binary needs
+    ~40 s.  Too expensive for the quick tier of an intact tree: run when an obligation or the tie broke, and in thorough."""
+    n = 121
+    spec = sc.mk_spec(n, [(120, i, 'step') for i in range(120)])
+    behav = [{'sleep_ms': 250} for _ in range(120)] + [{}]
+    return sc.mk_case(spec, 1, behav, label='long-wait/120 x 250 ms + 1 dependent, pool 1')
+
+
 def run(chk):
     quick = chk.tier == 'quick'
     ctx = sc.prepare(chk, PROPS)
@@ -170,6 +181,7 @@ def run(chk):
         'a command writing {0,1000,70000,300000} bytes to stdout x the same to stderr (pipe capacity 65536), succeeding or failing, with a dependent; ' +
         ('60 of the 543 DAGs on 4 steps + all DAGs on 2..3 steps' if quick else 'ALL 543 DAGs on 4 steps x 4 + all DAGs on <= 3 steps x 10 + 150 random DAGs on 5..8 steps') +
         ' with random outcomes (35 % failing commands, 20 % of the private input files missing, 25 % large outputs), when-options, pools 1/2/4, one or two runs. '
+        'LONG-WAIT scenario (only when an obligation or the tie broke, and in thorough): 120 independent steps of 250 ms + one dependent of all, pool 1, limit 110 s + observed grace; '
         'OUTPUT-FAULT STREAM (hook-free binary; first the minimised C11-2 scenario a<-b | true): chains, joins, independent steps, a missing dependency file, '
         '70000 B outputs and a signal-killed command, each with xvc\'s stdout/stderr reader gone at once (| true), after the first line (| head -1), after 64 bytes, '
         'both streams closed, and stdout (and stderr) = /dev/full; judged only on: the run terminates (any exit status) and leaves no xvc process behind; '
@@ -194,6 +206,15 @@ def run(chk):
         sc.run_family(ctx, 'outcomes/hook', hooked, OWN, hook=True, timeout=12 if quick else 20)
         hooked_locks = [dict(c, sched=f'{chk.seed * 31 + k}:200', runs=2) for k, c in enumerate(lock_cases)]
         sc.run_family(ctx, 'locks/hook', hooked_locks, OWN, hook=True, timeout=15, workers=2, confirm=False, shrink=False)
+    broke = bool(chk.proof['broken'] or chk.tie['disagreements'])
+    if broke or not quick:
+        chk.notes.append('long-wait scenario run because ' + ('a proof obligation or the trace tie broke (search for a failing input)' if broke else 'of the thorough tier'))
+        sc.run_family(ctx, 'long-wait/plain', [long_wait_case()], OWN, hook=False, timeout=110, workers=1, confirm=False, shrink=False)
+        names = sorted({t for b in chk.proof['broken'] for t in b.get('theorems', [])})
+        for f in chk.oracle_failures:
+            if str(f['case'].get('label', '')).startswith('long-wait') and isinstance(f.get('detail'), dict):
+                f['detail']['proof_obligations_that_no_longer_check'] = names      # e.g. C11_publish_table_decreases
+                f['detail']['trace_tie_disagreements'] = len(chk.tie['disagreements'])
     return chk.finish()
 
 
